@@ -1529,6 +1529,7 @@ insert_list:
         assert(th != CURRENT);
         th->error_number = error_number;
         RunQ rq;
+        VT_EVT(VT_INTR, th, (int64_t)error_number, !rq.current || vcpu != rq.current->get_vcpu(), 0);
         if (unlikely(!rq.current || vcpu != rq.current->get_vcpu())) {
             th->dequeue_ready_atomic(states::STANDBY);
             vcpu->move_to_standbyq_atomic(th);
@@ -1537,7 +1538,6 @@ insert_list:
             vcpu->sleepq.pop(th);
             AtomicRunQ(rq).insert_tail(th);
         }
-        VT_EVT(VT_INTR, th, (int64_t)error_number, th->state == states::STANDBY, 0);
     }
     void thread_interrupt(thread* th, int error_number)
     {
